@@ -368,7 +368,8 @@ def project(trace, get, sid, cmdmap=None, tail=0, sizes=None):
         if k == "match.slot":
             saw.append(dict(req(e), kind="reset" if e["kind"] == 1 else "retry"))
         elif k == "match.pick":
-            evs.append(dict(req(e), ev="pick", saw=saw, seq=e["seq"]))
+            pick_ev = dict(req(e), ev="pick", saw=saw, seq=e["seq"], pcfg=-1)
+            evs.append(pick_ev)
             saw = []
             f = req(e)
             for j in range(len(issued) - 1, -1, -1):
@@ -378,6 +379,13 @@ def project(trace, get, sid, cmdmap=None, tail=0, sizes=None):
                         # a request announced BEFORE the caches were last cleared is served after the clear: it may put
                         # entries of its own configuration back (same mechanism as a scan in flight across the clear)
                         overlap_cfg = issued[j][1]
+                    elif overlap_cfg is not None and overlap_cfg != scanning_cfg and cfgs[overlap_cfg][0] == cfgs[scanning_cfg][0]:
+                        # what may have refilled the caches is known only now (the older request was served after this
+                        # one had been announced)
+                        pick_ev["pcfg"] = overlap_cfg
+                        keys.add((e["q"], e.get("first", 0), e["count"], e["sort"], overlap_cfg))
+                        keys.add((e["q"], e.get("first", 0), e["count"], e["sort"], scanning_cfg))
+                    pick_ev["cfg"] = scanning_cfg
                     issued = issued[j + 1:]
                     break
         elif k == "coord.restart":
